@@ -22,7 +22,12 @@ DTYPES = [
 ]
 SUBBYTE = {"INT4": 4, "UINT4": 4, "FLOAT4E2M1": 4, "INT2": 2, "UINT2": 2}
 
-KINDS = [("np", 10), ("proto", 4), ("lazy", 3), ("packed", 2), ("ext", 4), ("bytesonly", 2)]
+KINDS = [("np", 10), ("proto", 4), ("lazy", 3), ("packed", 2), ("ext", 4), ("bytesonly", 2), ("torch", 5)]
+# what the torch exporter really hands over: onnx_ir.tensor_adapters.TorchTensor (its tofile() is a Python-level write)
+TORCH_DTYPES = {"FLOAT": "float32", "DOUBLE": "float64", "FLOAT16": "float16", "BFLOAT16": "bfloat16", "INT8": "int8",
+                "INT16": "int16", "INT32": "int32", "INT64": "int64", "UINT8": "uint8", "BOOL": "bool",
+                "COMPLEX64": "complex64", "COMPLEX128": "complex128", "FLOAT8E4M3FN": "float8_e4m3fn",
+                "FLOAT8E4M3FNUZ": "float8_e4m3fnuz", "FLOAT8E5M2": "float8_e5m2", "FLOAT8E5M2FNUZ": "float8_e5m2fnuz"}
 WHERE = [("main", 10), ("then", 2), ("else", 1), ("loop", 2)]
 
 # byte sizes worth hitting: 0, scalar, around the 256-byte externalisation threshold,
@@ -73,6 +78,8 @@ def gen_recipe(rng: Rng, tier: str, idx: int) -> dict:
         if kind == "ext" and not allow_ext:
             kind = "np"
         if kind == "packed" and dtype not in SUBBYTE:
+            kind = "np"
+        if kind == "torch" and dtype not in TORCH_DTYPES:
             kind = "np"
         if kind in ("proto", "lazy", "bytesonly", "ext") and dtype in ("INT2", "UINT2"):
             # onnx_ir 1.0.0 cannot read 2-bit tensors back from TensorProto / external files
@@ -172,6 +179,18 @@ def make_tensor(e: dict, sandbox: str):
     elif kind == "packed":
         packed = np.frombuffer(raw, dtype=np.uint8).copy()
         t = ir.PackedTensor(packed, dt, shape=ir.Shape(shape), name=name)
+    elif kind == "torch":
+        import torch
+        from onnx_ir import tensor_adapters
+
+        tdt = getattr(torch, TORCH_DTYPES[dtype])
+        if dtype in ("BFLOAT16",) or dtype.startswith("FLOAT8"):
+            width = {1: np.uint8, 2: np.uint16}[max(1, _itemsize_bits(dtype) // 8)]
+            base = torch.from_numpy(np.frombuffer(raw, dtype=width).copy().reshape(shape))
+            tt = base.view(tdt)
+        else:
+            tt = torch.from_numpy(_np_array(dtype, shape, raw))
+        t = tensor_adapters.TorchTensor(tt, name=name)
     elif kind == "ext":
         path = os.path.join(sandbox, e["ext_file"])
         os.makedirs(os.path.dirname(path), exist_ok=True)
